@@ -247,12 +247,17 @@ func TestCampaign(t *testing.T) {
 					h.Steps[i] = hgen.Step{Op: &o}
 				}
 			}
+			var wild string
+			h, wild = hgen.MaybeRename(rt, h, 20)
 			c := Case{Level: "L1", H: h}
 			if rapid.IntRange(0, 5).Draw(rt, "l2?") == 0 {
 				c.Level = "L2"
 				c.Batch = []int{rapid.IntRange(1, 6).Draw(rt, "batch")}
 			}
 			v := runCase(c)
+			if wild != "" {
+				v.Class("renamed:" + wild)
+			}
 			col.Check(rt, ev.JSON(c), v)
 		})
 	})
